@@ -1126,7 +1126,7 @@ func (p *provProfile) checkPass(pi *passInfo) {
 				}
 				// every daemonset that could still land there counts against the node
 				probe := *mn
-				probe.Pods = append(append([]*corev1.Pod(nil), mn.Pods...), missingDaemons(mn, pi.daemons)...)
+				probe.Pods = append(append([]*corev1.Pod(nil), mn.Pods...), heaviestDaemons(missingDaemons(mn, pi.daemons), pi.pods)...)
 				if Admit(q, &probe, pi.sv) == "" {
 					s.Violate("C04", "new-capacity-although-existing-fits", "pod %s was put on new NodeClaim %s although existing capacity %s (%s) admits it next to everything assigned there by the end of the pass", q.Name, name, k, mn.Meta)
 					return
@@ -1277,6 +1277,39 @@ func (p *provProfile) topologyKeyAcquired(pi *passInfo, target string, pod *core
 		}
 	}
 	return ""
+}
+
+// heaviestDaemons: a daemonset that could still land counts with the larger of its template's requests and those of
+// any of its running pods (Karpenter estimates the overhead from a running daemon pod; after a template change with
+// updateStrategy OnDelete the two differ, and either is a defensible estimate - rule R4).
+func heaviestDaemons(daemons []*corev1.Pod, pods []*corev1.Pod) []*corev1.Pod {
+	out := make([]*corev1.Pod, 0, len(daemons))
+	for _, d := range daemons {
+		max := podRequests(d)
+		for _, q := range pods {
+			owned := false
+			for _, o := range q.OwnerReferences {
+				if o.Kind == "DaemonSet" && o.Name == d.Name {
+					owned = true
+				}
+			}
+			if !owned || podTerminal(q) {
+				continue
+			}
+			for k, v := range podRequests(q) {
+				if cur, ok := max[k]; !ok || v.Cmp(cur) > 0 {
+					max[k] = v.DeepCopy()
+				}
+			}
+		}
+		c := d.DeepCopy()
+		delete(max, corev1.ResourcePods)
+		c.Spec.InitContainers = nil
+		c.Spec.Overhead = nil
+		c.Spec.Containers = []corev1.Container{{Name: "c", Image: "x", Ports: d.Spec.Containers[0].Ports, Resources: corev1.ResourceRequirements{Requests: max}}}
+		out = append(out, c)
+	}
+	return out
 }
 
 func missingDaemons(mn *ModelNode, daemons []*corev1.Pod) []*corev1.Pod {
@@ -1460,7 +1493,7 @@ func (p *provProfile) checkTruncation(pi *passInfo, nc *v1.NodeClaim, pods []*co
 		}
 		for _, of := range permittedOfferings(open, u) {
 			hn := HypotheticalNode(open, u, of)
-			hn.Pods = append([]*corev1.Pod(nil), pi.daemons...)
+			hn.Pods = heaviestDaemons(pi.daemons, pi.pods)
 			fits := true
 			for _, q := range pods {
 				if Admit(q, hn, pi.sv) != "" {
@@ -1542,7 +1575,7 @@ func (p *provProfile) poolFeasible(np *v1.NodePool, pod *corev1.Pod, pi *passInf
 				for k, v := range labels {
 					hn.Labels[k] = v
 				}
-				hn.Pods = daemonPodsFor(&ModelNode{Labels: hn.Labels}, pi.daemons)
+				hn.Pods = heaviestDaemons(daemonPodsFor(&ModelNode{Labels: hn.Labels}, pi.daemons), pi.pods)
 				if Admit(pod, hn, pi.sv) == "" {
 					return it.Name, of.Zone() + "/" + of.CapacityType()
 				}
